@@ -34,7 +34,7 @@ PROP = {
         "the catalog is static in the model: a constraint added by ALTER / CREATE UNIQUE INDEX is known to the model from the start, "
         "and generated setups never add a constraint that the existing rows violate (that failure path of ALTER belongs to C15)",
         "the specification refuses a commit when the committed database would violate a constraint (two open transactions inserting the "
-        "same key): this is the model's design decision; the code (since fix 22220d4) compares the keys a transaction INSERTed with those "
+        "same key): this is the model's design decision; the code (since fix ed56cf9) compares the keys a transaction INSERTed with those "
         "inserted by transactions that committed since its begin, which agrees with the specification for INSERTs over a sound index and "
         "differs otherwise (finding commitChecksInsertedKeysOnly, modelled exactly)",
         "VACUUM is not part of these histories (C13)",
